@@ -749,6 +749,9 @@ class Interp:
 
     def numpy_call(self, short, name, args, kwargs, e):
         a0 = args[0] if args else None
+        if short in ("asarray", "ascontiguousarray", "asanyarray", "array", "copy", "require", "asfortranarray") and isinstance(a0, Arr):
+            # value-preserving adapters (a dtype argument is the PITFALL rule's business, not a change of axes)
+            return a0
         if short == "swapaxes":
             return swapaxes(self.need_arr(a0, e), args[1], args[2], e)
         if short == "transpose":
